@@ -3,6 +3,7 @@
   Theorems about `Model/Par.lean`.
 -/
 import SkyllhModel.Proofs.Par
+import SkyllhModel.Proofs.ParStatus
 import SkyllhModel.Generated.C09
 import Mathlib.Tactic
 
@@ -247,3 +248,42 @@ theorem c09_orig_hang_result_consumed_counterexample : ¬ c09_orig_terminates_st
 step after which the exit codes are looked at again.  The current source has no `get()` of the result
 or log queues without `block=False` / `timeout` inside `parallelize`. -/
 theorem c09_no_blocking_get_for_current_source : Gen.C09.blockingGets = 0 := by decide
+
+/-! ### the status queue (`Model/ParStatus.lean`): a pipe of finite capacity in front of the exit -/
+
+/-- **Batch mode never blocks on the status queue**: `squeue is None`, so nothing is ever in a feeder
+buffer or in the pipe (whatever its capacity, 0 included), and the worker exits in every fair run. -/
+theorem c09_status_batch_never_blocks (c : ParStatus.Cfg) (h : c.shown = false) (σ : Nat → ParStatus.Ag) :
+    (∀ k, (ParStatus.run c σ k).buf = 0 ∧ (ParStatus.run c σ k).pipe = 0) ∧
+    (ParStatus.Fair σ → ∃ k, (ParStatus.run c σ k).exited = true) :=
+  ⟨ParStatus.batch_empty c h σ,
+   fun hf => ParStatus.exits c σ hf (fun k => Or.inl (ParStatus.batch_empty c h σ k).1)⟩
+
+/-- with the status queue emptied while joining, the worker exits in every fair run, interactive
+session or not, for every number of tasks and every pipe capacity ≥ 1 -/
+theorem c09_status_drain_at_join_exits (c : ParStatus.Cfg) (hd : c.drainAtJoin = true) (hc : 1 ≤ c.cap)
+    (σ : Nat → ParStatus.Ag) (hf : ParStatus.Fair σ) : ∃ k, (ParStatus.run c σ k).exited = true :=
+  ParStatus.exits c σ hf (fun _ => Or.inr ⟨hd, hc⟩)
+
+/-- "the worker can always exit" without that — false in an interactive session -/
+def c09_status_exits_statement : Prop :=
+  ∀ (c : ParStatus.Cfg) (σ : Nat → ParStatus.Ag), 1 ≤ c.cap → ParStatus.Fair σ →
+    ∃ k, (ParStatus.run c σ k).exited = true
+
+/-- interactive session, the master has finished its own chunk, the worker writes more status
+records than the pipe holds: its exit blocks for ever and `proc.join()` never returns -/
+theorem c09_status_interactive_hang_counterexample : ¬ c09_status_exits_statement := by
+  intro h
+  obtain ⟨k, hk⟩ := h ParStatus.cfgHang (ParStatus.sched ParStatus.preHang) (by decide)
+    (ParStatus.sched_fair _)
+  by_cases hlt : k < 6
+  · have : ∀ k < 6, (ParStatus.run ParStatus.cfgHang (ParStatus.sched ParStatus.preHang) k).exited = false := by
+      decide
+    simp [this k hlt] at hk
+  · obtain ⟨d, rfl⟩ : ∃ d, k = 6 + d := ⟨k - 6, by omega⟩
+    rw [ParStatus.hang_forever d] at hk
+    revert hk; decide
+
+example : ParStatus.Fair (ParStatus.sched []) := ParStatus.sched_fair []
+example : (ParStatus.run { shown := true, cap := 2, tasks := 3, drainAtJoin := true }
+    (ParStatus.sched ParStatus.preHang) 14).exited = true := by decide
